@@ -74,6 +74,7 @@ def scenario(ctx):
     sched = Scheduler(ctx)
     ctx.config.update(unix=unix)
 
+    scripted = 'order' in ctx.preset
     calls = []
     by_serial = {}
     pending = {}                 # serial -> Call   (the model)
@@ -83,7 +84,7 @@ def scenario(ctx):
     expected = []                # model completions decided during the current step
     seen = [0]
     events = []
-    budget = [1 + ds.choose(6)]
+    budget = [1 + ds.choose(6 * (2 if ctx.tier == 'thorough' else 1))]
     later = [ds.choose(3)]
     pipe_dc = rig.conn.pipes[1]
     client_lost = [False]
@@ -103,6 +104,8 @@ def scenario(ctx):
         c = by_serial.get(m.serial)
         if c is None:
             return True
+        if scripted:
+            return True                      # the sweep emits replies itself
         beh = ds.weighted([6, 3, 1.5, 1, 1, 1, 1])
         little = not ds.flag(0.2)
 
@@ -155,17 +158,20 @@ def scenario(ctx):
 
     rig.handlers.append(on_call)
 
-    def issue():
+    def issue(forced=None):
         cid = len(calls)
         c = Call(cid)
         calls.append(c)
         sig = gen.signature(ds, 2)
         body = gen.tx_body(ds, sig)[1] if sig else None
         kw = {}
-        if ds.flag(0.5):
+        if forced is not None:
+            if forced:
+                kw['timeout'] = forced
+        elif ds.flag(0.5):
             c.timeout = ds.pick([1.0, 0.25, 5.0, 30.0])
             kw['timeout'] = c.timeout
-        if ds.flag(0.12):
+        if forced is None and ds.flag(0.12):
             c.expect_reply = False
             kw['expectReply'] = False
         if ds.flag(0.5):
@@ -367,14 +373,56 @@ def scenario(ctx):
         after_step()
         probe_races()
 
-    # first call right away so that every run has work in flight
-    budget[0] -= 1
-    issue()
-    after_step()
-    sched.run(60 + 40 * len(calls) + 200, extra, invariant)
+    if scripted:
+        # deterministic sweep: N calls, then the given total order of {reply i, error i,
+        # deadline i, loss} events, each delivered / fired on its own
+        order = [tuple(e) for e in ctx.preset['order']]
+        n = ctx.preset['n']
+        budget[0] = 0
+        sim.nontrivial = True
+        rank = {}
+        for k, e in enumerate(order):
+            if e[0] == 't':
+                rank[e[1]] = 1.0 + k
+        for i in range(n):
+            issue(forced=rank.get(i, 0))
+        after_step()
+        rig.calm()
+        after_step()
+        for e in order:
+            sim.sched('ev', e)
+            if e[0] in ('r', 'e') and daemon.transport.state == net.OPEN and not daemon.transport.broken:
+                c = calls[e[1]]
+                f = {rc.F_REPLY_SERIAL: c.serial, rc.F_DESTINATION: rig.bus_name, rc.F_SENDER: ':1.7'}
+                if e[0] == 'r':
+                    sig = c.retsig if c.retsig not in (t_client._NO_CHECK_RETURN, None, '') else 'i'
+                    m = rc.Msg(rc.METHOD_RETURN, daemon.next_serial(), f, sig, gen.body(ds, sig))
+                else:
+                    f[rc.F_ERROR_NAME] = 'org.sim.Error.Swept'
+                    m = rc.Msg(rc.ERROR, daemon.next_serial(), f, 's', ['swept'])
+                emit(m, 'swept')[1]()
+                if pipe_dc.buf and rig.conn.a.state == net.OPEN:
+                    net.deliver(sim, pipe_dc, len(pipe_dc.buf))
+            elif e[0] == 't':
+                c = calls[e[1]]
+                if c.dc is not None and c.dc.active():
+                    sim.fire_timer(c.dc)
+            elif e[0] == 'L':
+                sim.fault('close')
+                daemon.transport.loseConnection()
+                for t in net.losable(sim):
+                    t.do_lose()
+            after_step()
+        sim.state(('swept', n, tuple(x[0] for x in order)))
+    else:
+        # first call right away so that every run has work in flight
+        budget[0] -= 1
+        issue()
+        after_step()
+    sched.run((60 + 40 * len(calls) + 200) * (3 if ctx.tier == 'thorough' else 1), extra, invariant)
     # ---- drain: faults off, FIFO; then advance past every deadline -----------------
     budget[0] = 0
-    ok = sched.drain(400, extra, after_step, fire_timers=True)
+    ok = sched.drain(400 * (3 if ctx.tier == 'thorough' else 1), extra, after_step, fire_timers=True)
     if not ok:
         raise Violation('C08/liveness', 'no quiescence', 'drain did not reach quiescence')
     sim.advance(100.0)
@@ -398,3 +446,31 @@ def scenario(ctx):
         if order != sorted(order):
             sim.probe('replies-out-of-call-order')
     sim.state(tuple(events))
+
+
+def sweep(tier):
+    """every total order of {reply or error for call i, deadline of call i (for every subset of
+    calls that have one), connection loss} for N = 1..3 calls (thorough: plus 30 000 sampled
+    orders for N = 4)"""
+    import itertools
+    import random
+    out = []
+    for n in (1, 2, 3):
+        for mask in range(2 ** n):
+            for kinds in itertools.product('re', repeat=n):
+                if n == 3 and kinds not in (('r', 'r', 'r'), ('e', 'r', 'r'), ('r', 'e', 'e')):
+                    continue
+                ev = [(kinds[i], i) for i in range(n)] + [('t', i) for i in range(n) if mask & (1 << i)] + [('L',)]
+                for perm in itertools.permutations(ev):
+                    out.append({'n': n, 'order': [list(e) for e in perm]})
+    res = [('all orders of reply/error, deadline and loss events, N<=3 calls', out)]
+    if tier != 'quick':
+        rnd = random.Random(4)
+        more = []
+        for _ in range(30000):
+            mask = rnd.randrange(16)
+            ev = [(rnd.choice('re'), i) for i in range(4)] + [('t', i) for i in range(4) if mask & (1 << i)] + [('L',)]
+            rnd.shuffle(ev)
+            more.append({'n': 4, 'order': [list(e) for e in ev]})
+        res.append(('sampled orders, N=4 calls', more))
+    return res
